@@ -19,6 +19,7 @@
 (*   P3:  c := 1; d := a + b        (fails after c := 1 when a is an int   *)
 (*                                   and b a string: partial effect)      *)
 (*   P4:  a.x[0] += 1               (mutates a container in place)         *)
+(*   P5:  a.x = [1]                 (assigns a key of a container in place)*)
 (* Containers handed in by the host have identity: heap[id] is the content *)
 (* of container id.  Compile hands the *same* container to every Compiled  *)
 (* object made from the Script (the implementation does not copy there);   *)
@@ -40,24 +41,29 @@ I(n) == [k |-> "int", n |-> n]
 S(b) == [k |-> "str", b |-> b]
 MCVals == {I(1), I(2), S(<<115>>)}      \* the ints 1, 2 and the string "s"
 NewCont == [k |-> "newcont"]            \* a fresh Go map {"x": [0]} handed in by the host
+NewEmpty == [k |-> "newempty"]          \* a fresh empty Go map {} (a container without the key x: content -1)
+Fl(n) == [k |-> "float", n |-> n]       \* the Go float64 n.0: Tengo-equal to the int n, but another type
 MCVals2 == {I(2), S(<<115>>), NewCont}
+MCVals3 == {I(2), Fl(2), S(<<115>>), NewCont, NewEmpty}
 
-Srcs == {"P1", "P2", "P3", "P4"}
-Uses(s) == CASE s = "P1" -> {"a", "b"} [] s = "P2" -> {} [] s = "P3" -> {"a", "b"} [] s = "P4" -> {"a"}
-Defines(s) == CASE s = "P1" -> {"c"} [] s = "P2" -> {"c"} [] s = "P3" -> {"c", "d"} [] s = "P4" -> {}
+Srcs == {"P1", "P2", "P3", "P4", "P5"}
+Uses(s) == CASE s = "P1" -> {"a", "b"} [] s = "P2" -> {} [] s = "P3" -> {"a", "b"} [] s = "P4" -> {"a"} [] s = "P5" -> {"a"}
+Defines(s) == CASE s = "P1" -> {"c"} [] s = "P2" -> {"c"} [] s = "P3" -> {"c", "d"} [] s = "P4" -> {} [] s = "P5" -> {}
 MaxContent == 2
 U == [k |-> "undef"]
 
 Digit(n) == <<48 + n>>
 Plus(x, y, h) == \* the + operator on the value universe; [k |-> "err"] = run-time error
+  LET Rend(id) == IF h[id] < 0 THEN <<123, 125>> ELSE <<123, 120, 58, 32, 91>> \o Digit(h[id]) \o <<93, 125>> IN    \* {} or {x: [n]}
   IF x.k = "undef" \/ y.k = "undef" THEN [k |-> "err"]
   ELSE IF x.k = "cont" THEN [k |-> "err"]                     \* map + anything: invalid operation
-  ELSE IF x.k = "str" /\ y.k = "cont" THEN S(x.b \o <<123, 120, 58, 32, 91>> \o Digit(h[y.id]) \o <<93, 125>>)   \* "s" + {x: [n]}
+  ELSE IF x.k = "str" /\ y.k = "cont" THEN S(x.b \o Rend(y.id))
   ELSE IF y.k = "cont" THEN [k |-> "err"]
   ELSE IF x.k = "int" /\ y.k = "int" THEN I(x.n + y.n)
+  ELSE IF x.k \in {"int", "float"} /\ y.k \in {"int", "float"} THEN Fl(x.n + y.n)    \* mixed or float arithmetic gives a float
   ELSE IF x.k = "str" /\ y.k = "str" THEN S(x.b \o y.b)
-  ELSE IF x.k = "str" THEN S(x.b \o Digit(y.n))   \* string + int: the decimal text is appended (ints here are 0..9)
-  ELSE [k |-> "err"]                             \* int + string: invalid operation
+  ELSE IF x.k = "str" THEN S(x.b \o Digit(y.n))   \* string + int (0..9) / float n.0: the text "n" is appended
+  ELSE [k |-> "err"]                             \* number + string: invalid operation
 
 \* effect of running script s on globals g and the container heap h: [g, h, ok]
 Effect(s, g, h) ==
@@ -66,7 +72,9 @@ Effect(s, g, h) ==
     [] s = "P3" -> LET g1 == [g EXCEPT !["c"] = I(1)] r == Plus(g["a"], g["b"], h) IN
                    IF r.k = "err" THEN [g |-> g1, h |-> h, ok |-> FALSE]
                    ELSE [g |-> [g1 EXCEPT !["d"] = r], h |-> h, ok |-> TRUE]
-    [] s = "P4" -> IF g["a"].k = "cont" THEN [g |-> g, h |-> [h EXCEPT ![g["a"].id] = @ + 1], ok |-> TRUE]
+    [] s = "P4" -> IF g["a"].k = "cont" /\ h[g["a"].id] >= 0 THEN [g |-> g, h |-> [h EXCEPT ![g["a"].id] = @ + 1], ok |-> TRUE]
+                   ELSE [g |-> g, h |-> h, ok |-> FALSE]           \* no key x (or not a container): undefined[0] + 1 fails
+    [] s = "P5" -> IF g["a"].k = "cont" THEN [g |-> g, h |-> [h EXCEPT ![g["a"].id] = 1], ok |-> TRUE]
                    ELSE [g |-> g, h |-> h, ok |-> FALSE]
 
 VARIABLES src, vars, objs, heap, hist
@@ -80,8 +88,8 @@ Init == /\ src \in Srcs
 
 Call(op, args, ret) == hist' = Append(hist, [op |-> op, args |-> args, ret |-> ret])
 
-Fresh(v) == IF v.k = "newcont" THEN [k |-> "cont", id |-> Len(heap) + 1] ELSE v
-HeapAfter(v) == IF v.k = "newcont" THEN Append(heap, 0) ELSE heap
+Fresh(v) == IF v.k \in {"newcont", "newempty"} THEN [k |-> "cont", id |-> Len(heap) + 1] ELSE v
+HeapAfter(v) == IF v.k = "newcont" THEN Append(heap, 0) ELSE IF v.k = "newempty" THEN Append(heap, -1) ELSE heap
 Shown(v, h) == IF v.k = "cont" THEN [k |-> "cont", n |-> h[v.id]] ELSE v     \* what the host sees of a value
 
 Add(n, v) == /\ Len(heap) < 4
